@@ -833,6 +833,10 @@ func (c *Conn) advanceFrame() (int, error) {
 			return noFrame, err
 		}
 		c.readRemaining = int64(binary.BigEndian.Uint64(p))
+		// RFC 6455 section 5.2: the most significant bit of the 64-bit length MUST be 0.
+		if c.readRemaining < 0 {
+			return noFrame, c.handleProtocolError("frame length with most significant bit set")
+		}
 	}
 
 	// 4. Handle frame masking.
